@@ -133,7 +133,10 @@ var checks = map[string]struct {
 	"C07": {drivers.PrepareC07, "model_checking"},
 	"C08": {drivers.PrepareC08, "model_checking"},
 	"C09": {drivers.PrepareC09, "model_checking"},
+	"C10": {drivers.PrepareC10, "model_checking"},
 	"C11": {drivers.PrepareC11, "model_checking"},
+	"C13": {drivers.PrepareC13, "model_checking"},
+	"C15": {drivers.PrepareC15, "model_checking"},
 	"C16": {drivers.PrepareC16, "model_checking"},
 	"C17": {drivers.PrepareC17, "model_checking"},
 	"C18": {drivers.PrepareC18, "model_checking"},
